@@ -32,6 +32,8 @@ class LabelledRandom:
     def __init__(self, ctx):
         self.ctx = ctx
         self.want = {}  # purpose -> list of wanted outcomes (scripted mode)
+        self.plan = None  # spec -> code replay: list (per event index) of {purpose: [wanted outcomes]}
+        self.run = None
 
     def purpose(self):
         f = sys._getframe(2)
@@ -59,6 +61,15 @@ class LabelledRandom:
         ctx = self.ctx
         u = None
         wants = self.want.get(purpose)
+        if self.plan is not None and self.run is not None:
+            k = len(self.run.events) + (1 if self.run.in_event else 0)   # index of the event in progress (0 = before the first)
+            if purpose == "tie_node":
+                # chosen at the end of event k (or before the first event) for event k + 1 / 1
+                nxt = k + 1 if self.run.in_event else 1 if not self.run.events else k + 1
+                wants = self.plan[nxt].get("tie_node_of_this_event") if nxt < len(self.plan) else None
+                wants = list(wants) if wants else None
+            else:
+                wants = self.plan[k].get(purpose) if k < len(self.plan) else None
         if wants:
             w = wants.pop(0)
             u = self.select(purpose, rc, w)
@@ -106,6 +117,7 @@ class Run:
         self.max_events = max_events
         self.tid = tid
         self.events = []
+        self.in_event = False
         self.recseq = []
         self.outcome = "returned"
         self.crash = None
@@ -211,9 +223,11 @@ class Run:
             ev["date"] = self.tk(Q.current_time)
             if len(self.events) >= self.max_events:
                 raise StopRun()
+            self.in_event = True
             try:
                 r = real(next_active_node)
             except (Exhausted, StopRun):
+                self.in_event = False
                 raise
             except Exception as e:  # crash inside ciw: terminal event of the trace
                 self.crash = crash_info(e)
@@ -223,6 +237,7 @@ class Run:
             post["recs"] = new_records(R)
             post["ev"] = ev
             self.events.append(post)
+            self.in_event = False
             key = (post["now"], post["created"], post["nexit"], tuple(n["count"] for n in post["nodes"]))
             if key == state["lastkey"]:
                 state["same"] += 1
